@@ -285,8 +285,35 @@ def canonical(l):
     return True
 
 
+def canonical_line(rng):
+    """a canonical ATOM record written by an independent formatter (wwPDB layout), including the name shapes that no
+    bundled file has: two-letter element symbols as names, leading-digit hydrogens, four-character names"""
+    el, name = rng.choice([('FE', 'FE'), ('ZN', 'ZN'), ('CA', 'CA'), ('C', 'CA'), ('C', 'C'), ('N', 'N'), ('O', 'OXT'), ('H', 'HD21'),
+                           ('H', 'HA'), ('SE', 'SE'), ('CL', 'CL'), ('C', 'CB'), ('O', 'OD1'), ('P', 'P'), ('MG', 'MG'), ('C', "C5'")])
+    if len(name) == 4 or name == el and len(el) == 2:
+        nf = name.ljust(4)
+    else:
+        nf = (' ' + name).ljust(4)
+    return 'ATOM  %5d %4s%1s%3s %1s%4d%1s   %8.3f%8.3f%8.3f%6.2f%6.2f          %2s  ' % (
+        rng.randint(1, 99999), nf, rng.choice([' ', 'A']), rng.choice(['ALA', ' DA', '  U']), rng.choice('ABXYZ'), rng.randint(-999, 9999),
+        rng.choice([' ', 'B']), rng.uniform(-999, 9999), rng.uniform(-999, 9999), rng.uniform(-999, 9999), rng.uniform(0, 1), rng.uniform(0, 99), el)
+
+
 def extra_checks(ctx):
     res = []
+    rng = ctx.rng
+    recs = [canonical_line(rng) for _ in range(ctx.scale(300, 5000))]
+    recs = [r for r in recs if canonical(r)]
+    db = pdb2sql(recs)
+    out = db.sql2pdb()
+    db._close()
+    bad = None
+    for a, b in zip(recs, out):
+        if a[:66] != b[:66] or a[76:78] != b[76:78]:
+            bad = {'record': a, 'exported': b}
+            break
+    res.append({'name': f'{len(recs)} synthetic canonical records (all name shapes) reproduced in columns 1-66 and 77-78', 'ok': bad is None and len(out) == len(recs),
+                'case': bad, 'detail': 'a canonical ATOM record is not reproduced unchanged'})
     root = '/repo/test/pdb'
     files = [os.path.join(root, f) for f in sorted(os.listdir(root)) if f.endswith('.pdb')]
     sub = os.path.join(root, '1AK4')
